@@ -16,7 +16,14 @@ every program the monitor observes the real pandera code:
 * ATTR      Model.<field> is the public column name (alias respected);
 * ORDER     a twin hierarchy built from the same program whose to_schema
             calls happen in another order (e.g. leaf first) gives the same
-            schemas;
+            schemas, and (always when an inherited method body reads through
+            cls something a subclass overrides, else on a sample) every class
+            of the twin validates a frame like its object-API schema;
+* CLS       @check / @dataframe_check / @parser / @dataframe_parser methods
+            are classmethods: during M.validate every one of them receives M
+            as cls - also when M inherits the method - and bodies that read a
+            class constant / helper classmethod through cls (overridden in
+            subclasses) make VERDICT see which class they were bound to;
 * AUX       the other public classmethods of a model (empty, get_metadata,
             to_json_schema, to_yaml, strategy, pydantic_validate) are
             interleaved with the compilations and validations - as the first
@@ -40,6 +47,10 @@ N = {"quick": 1200, "thorough": 36000}
 
 MECH_NAME = "model-check-name-consumed-by-first-to_check"
 MECH_PARSER = "model-overridden-parser-still-applied"
+# an inherited @check / @dataframe_check / @parser / @dataframe_parser method
+# is called with another model class of the hierarchy as ``cls`` than the
+# model that validates
+MECH_CLS = "model-inherited-method-called-with-other-model-class"
 
 
 def new_run():
@@ -49,7 +60,9 @@ def new_run():
         "pandas or polars; plain annotations, Optional, Field keywords, alias "
         "(str, int and the falsy labels 0 / 0.0 / False / ''), "
         "regex, Config options + extras-as-checks, @check / @dataframe_check / "
-        "@parser / @dataframe_parser methods, field overrides (new Field, "
+        "@parser / @dataframe_parser methods (a third of the bodies read a "
+        "class constant or helper classmethod _pvm_limit through cls, which "
+        "subclasses that inherit the method override), field overrides (new Field, "
         "Field only, bare annotation only, renaming), method / Config overrides "
         "(incl. switching an inherited option off and setting an inherited "
         "None-default option - unique, title, description, name, dtype - back "
@@ -58,7 +71,8 @@ def new_run():
         "interleaved before the first to_schema, after compilation and "
         "between validations) "
         "x 2-3 generated frames per class (incl. rows repeated in the columns "
-        "an ancestor declared jointly unique) x {eager, lazy}; non-trivial = the "
+        "an ancestor declared jointly unique) x {eager, lazy} + 1 frame per "
+        "class of a twin hierarchy compiled in another order; non-trivial = the "
         "tree has >= 2 classes or a custom method or a Config; distinct = "
         "canonical hash of the program",
         ["resolve() in pvm/c16_gen.py encodes python-inheritance semantics as "
@@ -71,7 +85,7 @@ def new_run():
          "a field override, schema name when Config subclasses the parent's "
          "Config, Config.metadata, whether a regex-designated check applies "
          "to a non-string column name (match on str(name) or never: both "
-         "accepted), the cls a custom method receives when inherited, what a "
+         "accepted), what a "
          "failing validate leaves on the model's cached schema (C05), a class "
          "whose field override renames a column that an inherited @check / "
          "@parser still designates by the old name (pandera refuses it with "
@@ -230,9 +244,11 @@ def toggles(prog, i, flat):
                         if col["name"] in d["targets"]:
                             col["parsers"].append(
                                 {"name": d["method"], "fn": d["fn"],
-                                 "title": "%s:%s" % (d["method"], d["fn"])})
+                                 "title": "%s:%s" % (d["method"], d["fn"]),
+                                 "limit": fl.get("limit")})
                 for d in c["df_parsers"]:
-                    fl["df_parsers"].append({"name": d["method"], "fn": d["fn"]})
+                    fl["df_parsers"].append({"name": d["method"], "fn": d["fn"],
+                                             "limit": fl.get("limit")})
         out.append((MECH_PARSER, f))
 
     # (c) pa.check(<FieldInfo>, <FieldInfo>) stores set(fields); inside a
@@ -456,6 +472,11 @@ def one_case(run, rng, backend=None, prog=None):
         for kind in ("checks", "df_checks", "parsers", "df_parsers"):
             for d in c[kind]:
                 run.count(f"method:{kind}:" + ("override" if d["method"] in inh else "new"))
+                if P.cls_dep(d.get("pred")) or P.cls_dep(d.get("fn")):
+                    run.count(f"method:{kind}:body-reads-cls")
+        if c.get("limit") is not None:
+            run.count("class_constant:" + ("override" if c["parent"] is not None
+                      and flats[c["parent"]]["limit"] is not None else "new"))
         for d in c["checks"]:
             if d["regex"]:
                 run.count("method:check:regex")
@@ -497,7 +518,22 @@ def one_case(run, rng, backend=None, prog=None):
                 and any(d["regex"] for ci in P.chain(prog, i)
                         for d in prog["classes"][ci]["checks"]):
             run.count("class:regex-check-and-non-str-column-name")
+        if fl["_cls_dep"]:
+            run.count("class:has-method-reading-cls")
+            run.count("class:has-method-reading-cls:"
+                      + prog.get("limit_style", "const"))
+        if fl["cls_dep_inherited"]:
+            # the input class of C16-mut7: an inherited method whose body
+            # reads, through cls, something this class (or an ancestor nearer
+            # than the defining one) overrides
+            run.count("class:inherits-method-reading-cls-and-overrides-constant")
+            run.count("class:inherits-method-reading-cls-and-overrides-constant:"
+                      + backend)
+            for m, _ in fl["cls_dep_inherited"]:
+                run.count("class:inherits-method-reading-cls-and-overrides-"
+                          "constant:" + fl["_methods"][m])
     log = []
+    cls_seen = set()
     recorded = {}          # class index -> (schema object, ident fingerprint)
     witness0 = {"program": prog, "ann_variant": variant}
     struct_mech = {}       # class index -> (mechs, reproducing schema) | "unknown"
@@ -680,8 +716,10 @@ def one_case(run, rng, backend=None, prog=None):
     # ORDER: twin hierarchy, to_schema in another order
     if ncls >= 2:
         try:
-            h2 = P.build_models(prog, ann_variant=variant)
+            log2 = []
+            h2 = P.build_models(prog, log=log2, ann_variant=variant)
             order = list(range(ncls))
+            twin_ok = []
             if rng.random() < 0.5:
                 order.reverse()
             else:
@@ -703,6 +741,52 @@ def one_case(run, rng, backend=None, prog=None):
                             "to_schema-depends-on-compilation-order",
                             {**witness0, "class": j, "order": order, "diff": d,
                              "mechanisms": mechs}, m)
+                elif j not in struct_mech:
+                    twin_ok.append(j)
+            # VERDICT on the twin: what a class means does not depend on
+            # which class of the hierarchy was compiled first (every class of
+            # the twin is compiled by now, in ``order``).  Always when an
+            # inherited method reads through cls something a subclass
+            # overrides, else on a sample
+            dep = any(fl["cls_dep_inherited"] for fl in flats)
+            if dep or rng.random() < 0.25:
+                for j in twin_ok:
+                    try:
+                        table, _ = P.gen_frame(rng, flats[j], backend)
+                        P.make_data(table, backend)
+                    except Exception as e:
+                        run.count("frame_gen_error:" + type(e).__name__)
+                        continue
+                    log2.clear()
+                    w = compare_validate(run, h2[j], flats[j], table, backend,
+                                         True, "twin-order")
+                    run.count("twin_order_verdict_compared")
+                    if flats[j]["_cls_dep"]:
+                        run.count("twin_order_verdict_compared:cls-dependent")
+                    if order.index(j) > 0:
+                        run.count("twin_order_verdict_compared:not-first-compiled")
+                    if any(order.index(a) > order.index(j)
+                           for a in P.chain(prog, j)[:-1]):
+                        run.count("twin_order_verdict_compared:"
+                                  "compiled-before-an-ancestor")
+                    if any(order.index(k) < order.index(j)
+                           for k in range(ncls)
+                           if k != j and j in P.chain(prog, k)):
+                        run.count("twin_order_verdict_compared:"
+                                  "compiled-after-a-descendant")
+                    if w:
+                        foreign = [x for x in log2 if x[2] is not h2[j]
+                                   and any(x[2] is h for h in h2)]
+                        run.violation(
+                            "verdict-depends-on-compilation-order",
+                            {**witness0, "class": j, "order": order,
+                             "table": table, "flat": _brief_flat(flats[j]),
+                             "methods_called_with_other_class":
+                             [[x[0], x[1], x[2].__name__] for x in foreign][:6],
+                             **w}, MECH_CLS if foreign else None)
+                    inspect_log(run, log2, h2[j], h2, backend,
+                                {**witness0, "class": j, "order": order},
+                                cls_seen, "twin")
             _cleanup(h2)
         except Exception as e:
             run.violation("twin-build-raises",
@@ -745,13 +829,21 @@ def one_case(run, rng, backend=None, prog=None):
                                          lazy, "struct-equal",
                                          sugar=(k == 1 and lazy))
                     if w:
-                        # (after an auxiliary classmethod changed the schema:
-                        # the observable consequence of that mechanism)
+                        # (after an auxiliary classmethod changed the schema,
+                        # or with a custom method that received another class
+                        # of the hierarchy as cls: the observable consequence
+                        # of that mechanism)
+                        foreign = [x for x in log if x[2] is not h1[i]
+                                   and any(x[2] is h for h in h1)]
                         run.violation("verdict-differs",
                                       {**witness0, "class": i, "table": table,
                                        "flat": _brief_flat(flat),
-                                       "after_aux": aux_changed.get(i), **w},
-                                      aux_changed.get(i))
+                                       "after_aux": aux_changed.get(i),
+                                       "methods_called_with_other_class":
+                                       [[x[0], x[1], x[2].__name__]
+                                        for x in foreign][:6], **w},
+                                      aux_changed.get(i)
+                                      or (MECH_CLS if foreign else None))
                 elif sm == "unknown":
                     run.count("verdict_skipped_after_unexplained_struct_diff")
                 else:
@@ -774,18 +866,8 @@ def one_case(run, rng, backend=None, prog=None):
                             run.violation("verdict-differs",
                                           {**witness0, "class": i, "table": table,
                                            "mechanisms": mechs, **w}, m)
-                for kind, meth, cls in log:
-                    run.count("custom_method_called:" + kind)
-                    ok = isinstance(cls, type) and issubclass(
-                        cls, _model_base(backend))
-                    if not ok:
-                        run.violation("check-method-received-non-model-cls",
-                                      {**witness0, "class": i, "method": meth,
-                                       "received": repr(cls)}, None)
-                    elif cls is h1[i]:
-                        run.count("custom_method_cls_is_validating_model")
-                    else:
-                        run.count("undecided:custom_method_cls_is_other_model")
+                inspect_log(run, log, h1[i], h1, backend,
+                            {**witness0, "class": i}, cls_seen, "h1")
         # what validation does to the validating model's own schema is C05's
         # business; here only the *other* classes are looked at
         keep = recorded.pop(i)
@@ -800,6 +882,39 @@ def one_case(run, rng, backend=None, prog=None):
 
 def _model_base(backend):
     return P._ns(backend).DataFrameModel
+
+
+def inspect_log(run, log, model, hierarchy, backend, witness, seen, where):
+    """CLS: every custom method that ran during a validation of ``model``
+    received ``model`` as its ``cls`` ("the method will be converted to a
+    classmethod": an inherited classmethod called for a subclass receives the
+    subclass).  -> the (kind, method, class name) triples that received
+    another class."""
+    foreign = []
+    for kind, meth, cls in log:
+        run.count("custom_method_called:" + kind)
+        run.count("custom_method_cls_checked")
+        run.count("custom_method_cls_checked:" + where)
+        if cls is model:
+            run.count("custom_method_cls_is_validating_model")
+            continue
+        foreign.append([kind, meth, getattr(cls, "__name__", repr(cls))])
+        if (meth, id(cls), where) in seen:
+            continue
+        seen.add((meth, id(cls), where))
+        if not (isinstance(cls, type)
+                and issubclass(cls, _model_base(backend))):
+            run.violation("check-method-received-non-model-cls",
+                          {**witness, "method": meth, "where": where,
+                           "received": repr(cls)}, None)
+        else:
+            run.violation("custom-method-received-other-model-class",
+                          {**witness, "method": meth, "kind_of_method": kind,
+                           "where": where, "validating": model.__name__,
+                           "received": cls.__name__},
+                          MECH_CLS if any(cls is h for h in hierarchy)
+                          else None)
+    return foreign
 
 
 def _brief_flat(flat):
@@ -880,6 +995,32 @@ FLOORS_QUICK = {
     "config_opt:reset-in-subclass:polars:subclass": 5,
     "config_opt:dtype": 33,
     "mutation:dup_row": 149, "mutation:dup_row:aimed": 11,
+    # input class / relations added for the seeded mutation C16-mut7 (an
+    # inherited custom method bound to the model class compiled first):
+    # bodies that read a class constant / helper classmethod through cls,
+    # CLS relation, VERDICT on the twin hierarchy
+    "class:has-method-reading-cls": 400,
+    "class:has-method-reading-cls:const": 260,
+    "class:has-method-reading-cls:classmethod": 130,
+    "class:inherits-method-reading-cls-and-overrides-constant": 95,
+    "class:inherits-method-reading-cls-and-overrides-constant:pandas": 60,
+    "class:inherits-method-reading-cls-and-overrides-constant:polars": 30,
+    "class:inherits-method-reading-cls-and-overrides-constant:check": 55,
+    "class:inherits-method-reading-cls-and-overrides-constant:df_check": 35,
+    "class:inherits-method-reading-cls-and-overrides-constant:parser": 4,
+    "class:inherits-method-reading-cls-and-overrides-constant:df_parser": 8,
+    "class_constant:override": 140,
+    "method:checks:body-reads-cls": 220, "method:df_checks:body-reads-cls": 130,
+    "method:parsers:body-reads-cls": 30, "method:df_parsers:body-reads-cls": 34,
+    "custom_method_called:df_check": 1750, "custom_method_called:parser": 900,
+    "custom_method_called:df_parser": 580,
+    "custom_method_cls_checked": 8500, "custom_method_cls_checked:h1": 7400,
+    "custom_method_cls_checked:twin": 1000,
+    "twin_order_verdict_compared": 340,
+    "twin_order_verdict_compared:cls-dependent": 240,
+    "twin_order_verdict_compared:not-first-compiled": 225,
+    "twin_order_verdict_compared:compiled-before-an-ancestor": 175,
+    "twin_order_verdict_compared:compiled-after-a-descendant": 155,
 }
 
 
